@@ -488,3 +488,64 @@ fn enumerate_sequences(seq: &mut Vec<usize>, max_len: usize, n_ops: usize, f: &m
     seq.pop();
   }
 }
+
+/// replay of one recorded FEEL history: the operation sequence on fresh scopes and freshly prepared evaluators
+pub fn replay_history(case: &serde_json::Value) -> String {
+  let n_e = HISTORY_EXPRESSIONS.len() + 1;
+  let n_s = 3;
+  let n_ops = n_e * n_s;
+  let names: Vec<String> = case.get("sequence").and_then(|s| s.as_array()).map(|a| a.iter().filter_map(|x| x.as_str().map(|s| s.to_string())).collect()).unwrap_or_default();
+  let mut seq = vec![];
+  for n in &names {
+    match (0..n_ops).find(|op| &op_name(*op, n_s) == n) {
+      Some(op) => seq.push(op),
+      None => return format!("MACHINERY unknown operation {}", n),
+    }
+  }
+  let pristine_of = |op: usize| -> String {
+    let scopes = history_scopes();
+    let evs = history_evaluators();
+    let (e, s) = (op / n_s, op % n_s);
+    if e < evs.len() {
+      evs[e](&scopes[s]).to_string()
+    } else {
+      let tscope = table_scope(s);
+      match table_evaluator(&tscope) {
+        Some(te) => te(&tscope).to_string(),
+        None => "null".into(),
+      }
+    }
+  };
+  let scopes = history_scopes();
+  let tscopes: Vec<Scope> = (0..n_s).map(table_scope).collect();
+  let initial: Vec<String> = scopes.iter().map(|s| s.to_string()).collect();
+  let tinitial: Vec<String> = tscopes.iter().map(|s| s.to_string()).collect();
+  let evs = history_evaluators();
+  let tevs: Vec<Option<Evaluator>> = tscopes.iter().map(table_evaluator).collect();
+  for (step, &op) in seq.iter().enumerate() {
+    let (e, s) = (op / n_s, op % n_s);
+    let v = if e < evs.len() {
+      evs[e](&scopes[s])
+    } else {
+      match &tevs[s] {
+        Some(te) => te(&tscopes[s]),
+        None => Value::Null(None),
+      }
+    };
+    let want = pristine_of(op);
+    if v.to_string() != want {
+      return format!("FAIL after {:?} the operation {} returns {} instead of {}", &names[..step], names[step], show_value(&v), want);
+    }
+    for (i, sc) in scopes.iter().enumerate() {
+      if sc.to_string() != initial[i] {
+        return format!("FAIL after {:?} scope #{} reads {} instead of {}", &names[..=step], i, sc, initial[i]);
+      }
+    }
+    for (i, sc) in tscopes.iter().enumerate() {
+      if sc.to_string() != tinitial[i] {
+        return format!("FAIL after {:?} table scope #{} reads {} instead of {}", &names[..=step], i, sc, tinitial[i]);
+      }
+    }
+  }
+  format!("PASS the history {:?} returns every result of the pristine operations and leaves the scopes as they were", names)
+}
